@@ -1,6 +1,6 @@
 (* C13 - the first message of a transfer: serial comparison (RFC 1982), up-to-date answer,
    "use TCP", and basic facts about the section grouping. *)
-From DV Require Import Base.Prelude Model.XfrM Proofs.XfrSpec.
+From DV Require Import Base.Prelude Model.XfrM Proofs.XfrSpec Proofs.XfrSafety.
 
 Ltac Zify.zify_post_hook ::= Z.to_euclidean_division_equations.
 
@@ -46,15 +46,6 @@ Qed.
 Lemma step_nosig : forall s r, req_tsig s = false -> step LastNoSig s r = step Last s r.
 Proof.
   intros s r H. unfold step. cbn [req_tsig set_delmode]. rewrite H. reflexivity.
-Qed.
-
-Lemma step_req_tsig : forall (fl : flag) s r s' o, step fl s r = (s', o) -> req_tsig s' = req_tsig s.
-Proof.
-  intros fl s r s' o H. unfold step, res_of in H.
-  repeat match type of H with
-         | context [if ?b then _ else _] => destruct b eqn:?
-         | context [match ?x with _ => _ end] => destruct x eqn:?
-         end; inversion H; subst; reflexivity.
 Qed.
 
 Lemma loopT_nosig : forall rs s sg, req_tsig s = false -> loopT sg s rs = loop s rs.
